@@ -84,6 +84,23 @@ func listFor(S []party.ID, self party.ID, mode int) []party.ID {
 	return out
 }
 
+// nonSigners lists the shareholders that are not in the signer set S.
+func nonSigners(ids, S []party.ID) []party.ID {
+	var out []party.ID
+	for _, id := range ids {
+		in := false
+		for _, s := range S {
+			if s == id {
+				in = true
+			}
+		}
+		if !in {
+			out = append(out, id)
+		}
+	}
+	return out
+}
+
 func pickIDs(ids []party.ID, sub []int) []party.ID {
 	out := make([]party.ID, len(sub))
 	for i, j := range sub {
@@ -314,7 +331,18 @@ func c01Frost(t *vk.T, n, th int, taproot bool, rep int, env vk.Env) {
 			} else {
 				start = func(id party.ID) protocol.StartFunc { return frost.Sign(m.f[id], listFor(S, id, mode), msg) }
 			}
-			net, outs, err := fx.RunMulti(r, S, start, fx.Opt{Sched: sched, SessionID: r.Bytes(4)})
+			sopt := fx.Opt{Sched: sched, SessionID: r.Bytes(4)}
+			var copies *int
+			if c%3 == 1 && len(S) > 1 {
+				// every message preceded by a wire copy naming somebody who is not a signer of this session (a
+				// shareholder left out of the signer set first, otherwise an unknown name): no effect allowed
+				sopt.Prepare, copies = c02Outsider(S, c/3, nonSigners(ids, S)...)
+				tag += " +outsider-copies"
+			}
+			net, outs, err := fx.RunMulti(r, S, start, sopt)
+			if copies != nil {
+				t.Obs("outsider_copies_delivered", int64(*copies))
+			}
 			if err != nil {
 				t.Violation(path+"|start-failed", "%s: %v", tag, err)
 				continue
@@ -462,7 +490,14 @@ func c01CMP(t *vk.T, n, th int, path, mat string, i int, env vk.Env) {
 		var err error
 		switch path {
 		case "sign":
-			_, outs, err = fx.RunMulti(r, S, func(id party.ID) protocol.StartFunc { return cmp.Sign(cfgs[id], listFor(S, id, i+c), msg, nil) }, fx.Opt{Sched: sched, SessionID: r.Bytes(4)})
+			sopt := fx.Opt{Sched: sched, SessionID: r.Bytes(4)}
+			if (i+c)%2 == 1 && len(S) > 1 {
+				var copies *int
+				sopt.Prepare, copies = c02Outsider(S, (i+c)/2, nonSigners(ids, S)...)
+				tag += " +outsider-copies"
+				defer func() { t.Obs("outsider_copies_delivered", int64(*copies)) }()
+			}
+			_, outs, err = fx.RunMulti(r, S, func(id party.ID) protocol.StartFunc { return cmp.Sign(cfgs[id], listFor(S, id, i+c), msg, nil) }, sopt)
 		case "full":
 			_, outs, err = fx.RunMulti(r, S, func(id party.ID) protocol.StartFunc { return presign.StartPresign(cfgs[id], listFor(S, id, i+c), msg, nil) }, fx.Opt{Sched: sched, SessionID: r.Bytes(4)})
 		case "presign+online":
